@@ -38,11 +38,14 @@ Inductive step :=
 | SKeep (rearm : bool) (d0 d2 x d3 : N)    (* keep-alive timer: boxed sleep(d0) polled once, armed with reset(now + d2);
                                               select! { biased; it => 0, sleep(x) => 1 }; on 1: re-armed with
                                               reset(now + d3) and awaited, or dropped *)
-| SWrap (wrapper_first : bool) (d : N).    (* same task, other waker: Box::pin(sleep(d)) polled once with the task's own
+| SWrap (wrapper_first : bool) (d : N)    (* same task, other waker: Box::pin(sleep(d)) polled once with the task's own
                                               waker, then awaited through a sub-executor that polls it with ITS waker
                                               (and only when that waker was woken); wrapper_first: the other way round.
                                               The stored waker is the one of the LAST poll (Futures.v note_poll); every
                                               waker of a task wakes that task, so the model keeps one identity per task *)
+| SRelay (wrapped : bool) (chi cho : N).   (* hand-over chain: receive a boxed Sleep on chi, poll it once (wrapped: with
+                                              the waker of a sub-executor), send it on over cho, log the instant.  The
+                                              Sleep may come back to a task that polled it earlier *)
 
 Inductive vstate := VSleep (s : sleep) | VFlip (polled : bool) | VRecv (ch : N) | VGot (s : sleep).
 
@@ -56,7 +59,8 @@ Inductive aw :=
 | AwHeld (tr : N) (s : sleep)           (* received at tr, awaiting the received Sleep *)
 | AwSelRecv (recv_first : bool) (ch : N) (s : sleep)
 | AwKeep (rearm : bool) (d3 : N) (s sx : sleep)   (* select between the keep-alive timer s and sleep(x) *)
-| AwThen (pre : list N) (s : sleep).              (* [pre] is logged; the step ends when s completes *)
+| AwThen (pre : list N) (s : sleep)               (* [pre] is logged; the step ends when s completes *)
+| AwRelay (k : nat) (chi cho : N).                (* task k waits for a boxed Sleep on chi to pass it on over cho *)
 
 (* A duration of at least FARK = 2^61 ns stands for Duration::MAX: `now + d` is SimTime::MAX
    (exactly, at now = 0) or not representable (Sleep::far_future); either way the deadline is
@@ -148,6 +152,7 @@ Definition poll_aw0 (now : N) (a : aw) (iv : option interval) (dr : driver)
   | AwThen pre s =>
     let '(r, s', dr') := sleep_poll now s dr in
     ((if r then Some (pre ++ [now]) else None), AwThen pre s', iv, dr', false)
+  | AwRelay k chi cho => (None, AwRelay k chi cho, iv, dr, false)
   end.
 
 (* the value future of a timeout with the channels of module m at hand: a receive is Ready
@@ -171,6 +176,13 @@ Definition poll_aw (now m : N) (a : aw) (iv : option interval) (dr : driver) (ma
     match mail_take m ch mail with
     | Some (s, mail') => (poll_aw0 now (AwHeld now s) iv dr, mail')
     | None => (None, AwRecv ch, iv, dr, false, mail)
+    end
+  | AwRelay k chi cho =>
+    match mail_take m chi mail with
+    | Some (s, mail') =>
+      let '(_, s', dr') := sleep_poll now s dr in
+      (Some [now], AwRelay k chi cho, iv, dr', false, mail' ++ [(m, cho, k, s')])
+    | None => (None, AwRelay k chi cho, iv, dr, false, mail)
     end
   | AwTimeout v dl =>
     let '(res, vm', dl', dr') := timeout_poll (vpoll_m m) now (v, mail) dl dr in
@@ -233,6 +245,7 @@ Definition start_step0 (now : N) (s : step) (iv : option interval) (dr : driver)
   | SWrap _ d =>
     let '(_, s1, dr1) := sleep_poll now (sleep_new (dl now d) nid) dr in
     (Some (AwSleep s1), iv, dr1, nid + 1, lg)
+  | SRelay _ _ _ => (None, iv, dr, nid, lg)           (* see [start_step] *)
   end.
 
 (* ... for task k of module m, with the channels *)
@@ -243,6 +256,7 @@ Definition start_step (now m : N) (k : nat) (s : step) (iv : option interval) (d
   | SHandOver ch d =>
     let '(_, s1, dr1) := sleep_poll now (sleep_new (now + d) nid) dr in
     (None, iv, dr1, nid + 1, lg ++ [now], mail ++ [(m, ch, k, s1)])
+  | SRelay _ chi cho => (Some (AwRelay k chi cho), iv, dr, nid, lg, mail)
   | _ => (start_step0 now s iv dr nid lg, mail)
   end.
 
@@ -342,6 +356,7 @@ Definition poll_task (wfix : bool) (now m : N) (k : nat) (w : world) : world * b
 Definition waits_on (a : option aw) : option N :=
   match a with
   | Some (AwRecv ch) => Some ch
+  | Some (AwRelay _ chi _) => Some chi
   | Some (AwTimeout (VRecv ch) _) => Some ch
   | Some (AwSelRecv _ ch _) => Some ch
   | _ => None
@@ -478,7 +493,7 @@ Definition run_tasks (wfix : bool) (ts : list task) : world * bool :=
    task   := len [ mod start step* ]      (length-prefixed)   module = mod mod modules;
                                           start = 0: spawned by at_sim_start, else by a message at [start]
    step   := 1 d | 2 t | 3 d k x | 4 f a b | 5 p beh k b1..bk | 6 f d1 d2 | 7 d | 8 | 9 ch d | 10 ch
-             | 11 d ch | 12 f ch d | 13 f d0 d2 x d3 | 14 f d
+             | 11 d ch | 12 f ch d | 13 f d0 d2 x d3 | 14 f d | 15 f chi cho
      3: timeout(d, if k even then sleep(x) else flip)       4: f odd = `biased;`
      5: interval(max 1 p), behaviour beh mod 3 (0 Burst 1 Delay 2 Skip), k ticks, after tick i
         sleep(b_i) if b_i > 0                               6: f odd = polled once before the reset
@@ -518,6 +533,7 @@ Definition dec_step (l : list N) : option (list step * list N) :=
   | 12 :: f :: ch :: d :: r => Some ([SSelRecv (N.odd f) ch d], r)
   | 13 :: f :: d0 :: d2 :: x :: d3 :: r => Some ([SKeep (N.odd f) d0 d2 x d3], r)
   | 14 :: f :: d :: r => Some ([SWrap (N.odd f) d], r)
+  | 15 :: f :: chi :: cho :: r => Some ([SRelay (N.odd f) chi cho], r)
   | _ => None
   end.
 
